@@ -28,6 +28,7 @@ pub fn hit(label: &'static str) {
 mod chan;
 mod im;
 mod pins;
+mod round3;
 mod misc;
 mod netaddr;
 mod seqs;
@@ -273,6 +274,7 @@ fn main() {
     timebytes::run(&mut cx);
     chan::run(&mut cx);
     misc::run(&mut cx);
+    round3::run(&mut cx);
     pins::run(&mut cx);
     let js = |v: &Vec<(String, String)>| -> String {
         v.iter().map(|(n, d)| format!("{{\"contract\": {}, \"detail\": {}}}", json_str(n), json_str(d))).collect::<Vec<_>>().join(", ")
